@@ -732,6 +732,9 @@ def run(ctx, prog):
     n3 = compose(ctx, prog, steps, ci, disp)
     d4(ctx, prog, ci)
     from .c05 import buffer_dtypes
+    ctx.rule('C06-D7', 'the shared byte-array check accepts exactly integer arrays with all values in 0..255 (every dtype x boundary range, by interpretation)')
+    from .c05 import byte_validator
+    ctx.floor('byte validator cases', byte_validator(ctx, prog, 'C06-D7'), 100)
     ctx.floor('buffer allocations judged (des)', buffer_dtypes(ctx, prog, D, 'C06-D2'), 3)
     n5 = d5(ctx, prog, ci)
     n6 = d6(ctx, prog, D, 'C06-D6')
